@@ -395,6 +395,27 @@ pub fn pipeline_leg(args: &Args) {
             }
         }
     });
+    // deep pipelines whose replies add up to megabytes (a reply buffer that is flushed or capped part-way
+    // must not leave commands of the same read unexecuted): SET a 16-48 KiB value, then 40-120 x (GET, INCR)
+    rt.block_on(async {
+        let n = if args.thorough() { 6 } else { 2 };
+        for i in 0..n {
+            let cfgs = configs(&mut rng);
+            let cfg = cfgs[(args.shard + i) % cfgs.len()].clone();
+            let blob: Vec<u8> = (0..rng.gen_range(16_000..48_000)).map(|j| b'a' + (j % 23) as u8).collect();
+            let mut cmds: Vec<Argv> = vec![vec![b("SET"), b("blob"), blob]];
+            for _ in 0..rng.gen_range(40..120) {
+                cmds.push(vec![b("GET"), b("blob")]);
+                cmds.push(vec![b("INCR"), b("ctr")]);
+            }
+            cmds.push(vec![b("ECHO"), b("end-of-deep-pipeline")]);
+            let len: usize = cmds.iter().map(|a| myresp::frame_v(a).len()).sum();
+            let segs: Vec<Vec<usize>> = vec![vec![], vec![len / 2], vec![rng.gen_range(1..len), rng.gen_range(1..len)].into_iter().collect::<std::collections::BTreeSet<_>>().into_iter().collect()];
+            rep.count("deep_pipelines_with_megabyte_replies");
+            rep.max("deep_pipeline_reply_bytes", (cmds.len() / 2 * 48_000 / 2) as u64);
+            one_stream(&mut rep, &cmds, &cfg, &segs).await;
+        }
+    });
     let hits1 = verif_hooks::site_hits();
     rep.add("h2_pooled_fast_path_calls", hits1[verif_hooks::SITE_POOLED_SENT] - hits0[verif_hooks::SITE_POOLED_SENT]);
     rep.add("h2_batch_or_fast_calls", hits1[verif_hooks::SITE_FAST_SENT] - hits0[verif_hooks::SITE_FAST_SENT]);
